@@ -304,3 +304,139 @@ Module C08Run.
     (sys_step c (sys_run c s0 h) (SClaim (e 9000000000) (bs "prop") 1 2 0 2 0 bh)).2 = false.
   Proof. vm_compute. split; reflexivity. Qed.
 End C08Run.
+
+(* ------------------------------------------------------------------------------------ *)
+(* unpaid => leaf not marked claimed, up to a hash collision (uses the C03 leaf binding)     *)
+(* ------------------------------------------------------------------------------------ *)
+Require Import Proofs.MerkleProofs Proofs.C03Binding.
+
+(* every claimed leaf of this bridge is the leaf of a recorded withdrawal whose sequence is paid *)
+Definition proven_paid (c : scfg) (s : sys) : Prop :=
+  ∀ x, (bid c, x) ∈ L1.proven (l1 s) → ∃ w, w ∈ L2.wlog (l2 s) ∧ L2.w_seq w ∈ paid s ∧ x = wleaf c w.
+
+Lemma handle_wlog_grows m : ∀ c s s' r, L2.handle c s m = Some (s', r) → ∃ ws, L2.wlog s' = ws ++ L2.wlog s.
+Proof.
+  induction m as [f|w1 w2 w3 w4|b1 b2 b3 b4|i1 i2|u1 u2|v1 v2 v3|r1 r2|p1 p2 p3|sender inner IH] using msg_ind';
+    intros c s s' r; [cbn [L2.handle]..|].
+  - intros Hh. apply finalize_deposit_Some in Hh as (_ & _ & [(_ & -> & _)|(_ & _ & _ & ok & _ & _ & _ & _ & Hc)]).
+    + by exists [].
+    + destruct Hc as [(_ & ws & Hw & _)|(_ & _ & base & Hw)]; [by exists ws|]. eexists [_]. exact Hw.
+  - intros Hh. apply withdraw_Some in Hh as (?&?&?&?&_&_&_&_&_&_&_&_&->). by eexists [_].
+  - intros Hh. apply bank_send_msg_Some in Hh as (? & -> & _). by exists [].
+  - intros Hh. apply set_bridge_info_Some in Hh as (_&_&_&->&_). by exists [].
+  - intros Hh. apply update_params_Some in Hh as (_&_&->&_). by exists [].
+  - intros Hh. apply add_val_Some in Hh as (_&?&?&_&_&->&_). by exists [].
+  - intros Hh. apply remove_val_Some in Hh as (_&?&?&_&_&->&_). by exists [].
+  - intros Hh. apply spend_fee_pool_Some in Hh as (_&?&->&_). by exists [].
+  - rewrite handle_execute.
+    destruct (negb (bool_decide (is_Some _))); [discriminate|].
+    case_bool_decide; [discriminate|]. destruct (negb (L2.is_admin s sender)); [discriminate|].
+    intros Hx. apply bind_Some in Hx as (auth & _ & Hx). clear -IH Hx.
+    revert s Hx. induction inner as [|im l IHl]; intros s.
+    + intros [= <- <-]. by exists [].
+    + rewrite exec_loop_cons. intros Hx.
+      apply bind_Some in Hx as (sg & _ & Hx). apply bind_Some in Hx as (a & _ & Hx).
+      destruct (negb (bool_decide (a = auth))); [discriminate|].
+      apply bind_Some in Hx as ([s1 r1] & Hh & Hx).
+      apply Forall_cons in IH as [IHim IHrest].
+      destruct (IHim _ _ _ _ Hh) as (ws1 & Hw1). destruct (IHl IHrest _ Hx) as (ws2 & Hw2).
+      exists (ws2 ++ ws1). by rewrite Hw2, Hw1, app_assoc.
+Qed.
+
+Lemma step_proven_paid c s m : proven_paid c s → proven_paid c (sys_step c s m).1.
+Proof.
+  intros J.
+  assert (Hl1 : ∀ s1, L1.proven s1 = L1.proven (l1 s) → proven_paid c (set_l1 s s1)).
+  { intros s1 Hp x. cbn. rewrite Hp. apply J. }
+  assert (Hl2 : ∀ s2 ws, L2.wlog s2 = ws ++ L2.wlog (l2 s) → proven_paid c (set_l2 s s2)).
+  { intros s2 ws Hw x Hx. cbn in *. destruct (J x Hx) as (w & Hin & Hp & ->). exists w.
+    split; [rewrite Hw; apply elem_of_app; by right|done]. }
+  destruct m as [e sender to d amt data|e from to d amt|m2|k ex h hook|e p idx l2b lo hi v bh|e ch idx|e sender idx m lo hi v bh|e m1];
+    cbn [sys_step].
+  - case_bool_decide; [done|]. unfold lift1, L1.step. cbn [L1.handle].
+    destruct (L1.deposit _ _ _ _ _ _ _ _ _) as [[s1 r]|] eqn:Hd; [|done].
+    apply l1_deposit_effect in Hd as (sd & _ & _ & _ & _ & _ & Hpr). by apply Hl1.
+  - case_bool_decide; [done|]. unfold lift1, L1.step. cbn [L1.handle].
+    destruct (L1.bank_send_msg _ _ _ _ _) as [[s1 r]|] eqn:Hd; [|done].
+    apply l1_bank_send_effect in Hd as (_ & _ & _ & Hpr).
+    case_bool_decide; cbn [fst]; intros x Hx; cbn in *; rewrite Hpr in Hx; by apply J.
+  - destruct (l2_plain m2); [|done]. unfold lift2, L2.step.
+    destruct (L2.handle (c2 c) (l2 s) m2) as [[s2 r]|] eqn:Hh; [|done]. cbn [fst].
+    destruct (handle_wlog_grows _ _ _ _ _ Hh) as (ws & Hw). by eapply Hl2.
+  - destruct (find_event c (l1 s) k) as [ev|]; [|done]. unfold lift2, L2.step.
+    destruct (L2.handle (c2 c) (l2 s) _) as [[s2 r]|] eqn:Hh; [|done]. cbn [fst].
+    destruct (handle_wlog_grows _ _ _ _ _ Hh) as (ws & Hw). by eapply Hl2.
+  - unfold lift1, L1.step. cbn [L1.handle].
+    destruct (L1.propose _ _ _ _ _ _ _ _) as [[s1 r]|] eqn:Hd; [|done].
+    apply l1_propose_effect in Hd as (_ & _ & _ & Hpr). by apply Hl1.
+  - unfold lift1, L1.step. cbn [L1.handle].
+    destruct (L1.delete_output _ _ _ _ _ _) as [[s1 r]|] eqn:Hd; [|done].
+    apply l1_delete_effect in Hd as (_ & _ & _ & Hpr). by apply Hl1.
+  - destruct (find_w (l2 s) m) as [w|] eqn:Hf; [|done].
+    apply find_elem in Hf as [Hin Hm]. apply N.eqb_eq in Hm.
+    unfold lift1, L1.step, claim_of. cbn [L1.handle].
+    destruct (L1.finalize _ _ _ _ _ _ _ _ _ _ _ _ _ _ _) as [[s1 r]|] eqn:Hd; [|done].
+    apply l1_finalize_effect in Hd as (rcv & _ & _ & _ & _ & _ & Hpr).
+    change (leaf_hash _ _ _ _ _ _ _) with (wleaf c w) in Hpr.
+    cbn [fst set_l1 l1 l2 paid]. intros x Hx. cbn [l1 l2 paid] in *. rewrite Hpr in Hx.
+    apply elem_of_union in Hx as [Hx|Hx].
+    + apply elem_of_singleton in Hx. injection Hx as ->. exists w. split; [done|]. split; [rewrite Hm; by left|done].
+    + destruct (J x Hx) as (w' & ? & ? & ->). exists w'. split; [done|]. split; [by right|done].
+  - destruct (l1_admin m1) eqn:Ha; [|done]. unfold lift1, L1.step.
+    destruct (L1.handle (c1 c) e (l1 s) m1) as [[s1 r]|] eqn:Hh; [|done].
+    apply (l1_admin_frame _ _ _ _ _ _ Ha) in Hh as (_ & _ & _ & Hpr). by apply Hl1.
+Qed.
+
+Lemma run_proven_paid c h : ∀ s, proven_paid c s → proven_paid c (sys_run c s h).
+Proof. induction h as [|m h IH]; intros s J; cbn; [done|]. apply IH. by apply step_proven_paid. Qed.
+
+Lemma fresh_proven_paid c s : fresh c s → proven_paid c s.
+Proof. intros (_ & _ & F3 & _) x. rewrite F3. intros Hx. by apply elem_of_empty in Hx. Qed.
+
+(* an unpaid recorded withdrawal's leaf is not marked claimed, or the hash collides *)
+Lemma unpaid_unclaimed c s w :
+  (∀ y, length (L1.hash (c1 c) y) = 32%nat) →
+  C08Proofs.inv c s → l2ok c s → proven_paid c s →
+  (bid c < two64N)%N → (L2.next_l2 (l2 s) ≤ two64N)%N →
+  w ∈ L2.wlog (l2 s) → L2.w_seq w ∉ paid s →
+  (bid c, wleaf c w) ∉ L1.proven (l1 s) ∨ Collision (L1.hash (c1 c)).
+Proof.
+  intros Hlen I Hok J Hb Hn Hin Hnp.
+  destruct (decide ((bid c, wleaf c w) ∈ L1.proven (l1 s))) as [Hp|]; [|by left].
+  destruct (J _ Hp) as (w' & Hin' & Hp' & Heq).
+  destruct Hok as (_ & _ & Hall). rewrite List.Forall_forall in Hall.
+  destruct (Hall w) as [_ _ _ _ _ Ha _ _]; [by apply elem_of_list_In|].
+  destruct (Hall w') as [_ _ _ _ _ Ha' _ _]; [by apply elem_of_list_In|].
+  destruct (i_w_lt _ _ I w Hin) as [Hs _]. destruct (i_w_lt _ _ I w' Hin') as [Hs' _].
+  unfold wleaf in Heq.
+  assert (S1 : (L2.w_seq w < two64N)%N) by (unfold two64N in *; lia).
+  assert (S2 : (L2.w_seq w' < two64N)%N) by (unfold two64N in *; lia).
+  assert (A1 : (Z.to_N (L2.w_amt w) < two64N)%N) by (unfold two64N, C04Proofs.two64 in *; lia).
+  assert (A2 : (Z.to_N (L2.w_amt w') < two64N)%N) by (unfold two64N, C04Proofs.two64 in *; lia).
+  destruct (leaf_binding (L1.hash (c1 c)) Hlen _ _ _ _ _ _ _ _ _ _ _ _ Hb S1 A1 Hb S2 A2 Heq) as [(_ & Hseq & _)|Hc];
+    [|by right].
+  exfalso. apply Hnp. by rewrite Hseq.
+Qed.
+
+(* drain, part 2 without the "leaf not marked claimed" premise *)
+Lemma c08_drain_claim_binding c s0 h e sender idx m lo hi v bh w x o rcv :
+  fresh c s0 → L2.resolve (c2 c) [] = None → (∀ y, length (L1.hash (c1 c) y) = 32%nat) →
+  let s := sys_run c s0 h in
+  (bid c < two64N)%N → (L2.next_l2 (l2 s) ≤ two64N)%N →
+  (0 ≤ gets (L2.bk (l2 s)) (L2.w_denom w))%Z →
+  find_w (l2 s) m = Some w → m ∉ paid s → (lo < m ≤ hi)%N →
+  (0 < L2.w_amt w)%Z → L1.resolve (c1 c) (L2.w_to w) = Some rcv → is_Some (L1.resolve (c1 c) sender) →
+  (1 ≤ bid c)%N → (1 ≤ idx)%N →
+  L1.configs (l1 s) !! bid c = Some x → L1.outputs (l1 s) !! (bid c, idx) = Some o →
+  L1.o_root o = honest_root c (l2 s) lo hi v bh → L1.is_final x e o = true → length bh = 32%nat →
+  (sys_step c s (SClaim e sender idx m lo hi v bh)).2 = true ∨ denom_collision c ∨ Collision (L1.hash (c1 c)).
+Proof.
+  intros F Hnil Hlen s Hb Hn Hsup Hf Hnp Hrange Hpos Hrcv Hsender Hb1 Hidx Hcfg Hout Hroot Hfinal Hbh.
+  pose proof (run_inv c h s0 (fresh_inv c s0 F)) as I. fold s in I.
+  destruct (run_ok c h s0 Hnil (fresh_nonneg c s0 F) (fresh_l2ok c s0 F)) as [_ Hok]. fold s in Hok.
+  pose proof (run_proven_paid c h s0 (fresh_proven_paid c s0 F)) as J. fold s in J.
+  pose proof Hf as Hf'. apply find_elem in Hf' as [Hin Hm]. apply N.eqb_eq in Hm.
+  destruct (unpaid_unclaimed c s w Hlen I Hok J Hb Hn Hin ltac:(by rewrite Hm)) as [Hnew|Hc]; [|by right; right].
+  destruct (c08_drain_claim c s0 h e sender idx m lo hi v bh w x o rcv F Hnil Hlen Hsup Hf Hnp Hrange Hpos Hrcv
+              Hsender Hb1 Hidx Hcfg Hout Hroot Hfinal Hbh Hnew) as [Hok'|Hc]; [by left|by right; left].
+Qed.
